@@ -313,6 +313,10 @@ func (d *c03Decl) route() (method, pattern string) {
 	method = []string{"GET", "GET", "DELETE", "POST", "PUT", "PATCH", "OPTIONS", "GET"}[d.sum%8]
 	if d.in == "form" || d.in == "mform" {
 		method = []string{"POST", "POST", "PUT", "PATCH", "DELETE"}[d.sum%5]
+		if d.in == "form" && d.sum%7 == 3 {
+			// a urlencoded form under a method net/http's ParseForm does not read the body for: the binder reads it itself
+			method = []string{"GET", "OPTIONS"}[(d.sum/7)%2] // (not HEAD: its answers carry no message to read the parameter name from)
+		}
 	}
 	pattern = "/op"
 	if d.in == "path" {
